@@ -1,6 +1,7 @@
 """C08 unbiased compaction (DESIGN.md section 5 C08; A9): coin clauses."""
 import coin_rules as K
 import generic_lints
+import cowrite
 
 
 def run(facts, tier):
@@ -9,6 +10,8 @@ def run(facts, tier):
         ("coin dataflow", K.coin_sources, 15, "surviving parity flows from random_bit() only; one draw per halving, independent of outcomes; stride 2 over an even run"),
         ("stride offsets", K.stride_offsets, 1, "a stride-s sub-sampling loop starts at an offset drawn uniformly from [0, s) with the library engine"),
         ("req region", K.req_region, 2, "REQ compaction range touches the end of the live region that compact() moves (low==0 in HRA, high==num_items_ in LRA)"),
+        ("unsigned clamp", K.unsigned_field_minus_param, 1, "every caller of a function that subtracts a parameter from an unsigned field passes min(x, field): the REQ compaction schedule is clamped to the number of sections"),
+        ("sortedness couplings", lambda fa: cowrite.obligations(fa, ['kll_sketch', 'req_compactor', 'quantiles_sketch']), 8, "an item placed into level 0 / the buffer clears the sortedness flag that lets compaction skip sorting (halving an unsorted run is biased)"),
         ("merge peers", K.merge_peers, 1, "merge combines error parameters with the same field of the other sketch"),
         ("tautologies", lambda fa: generic_lints.tautologies(fa, ('kll/', 'req/', 'quantiles/')), 2, "no comparison / assignment / min-max with two identical operands, no if-else with identical arms"),
         ("duplicate operands", lambda fa: generic_lints.duplicate_conjuncts(fa, ('kll/', 'req/', 'quantiles/')), 2, "no logical chain tests the same operand twice (copy-paste of the wrong peer)"),
